@@ -4,10 +4,11 @@
 # Builds the harness with -Cinstrument-coverage (nightly, own target dir), runs the quick tiers, merges the
 # profiles and prints per file the uncovered line ranges to /verif/.runs/coverage/uncovered.txt
 set -u
-cd /verif
+ROOT=$(cd "$(dirname "$0")/.."; pwd)
+cd $ROOT
 PROPS="${@:-C01 C02 C03 C04 C05 C06 C07 C08 C09 C10 C11 C12 C13 C14 C15 C16 C17 C18 C19}"
-OUT=/verif/.runs/coverage
-TGT=/verif/.target/cov
+OUT=$ROOT/.runs/coverage
+TGT=${COV_TARGET:-$ROOT/.target/cov}
 BIN=$HOME/.rustup/toolchains/nightly-x86_64-unknown-linux-gnu/lib/rustlib/x86_64-unknown-linux-gnu/bin
 rm -rf $OUT; mkdir -p $OUT/prof
 export RUSTUP_TOOLCHAIN=nightly
